@@ -30,6 +30,8 @@ REPO = os.environ.get("VERIF_REPO", "/repo")
 COQ = os.path.join(VERIF, "coq")
 HARNESS = os.path.join(VERIF, "harness")
 BUILD = os.path.join(VERIF, ".build")
+# scratch directory of this invocation (concurrent invocations must not collide)
+RUNROOT = os.path.join(BUILD, "run", "p%d" % os.getpid())
 GOENV = dict(os.environ, GOFLAGS="-mod=mod", GOPROXY="off", GOTOOLCHAIN="auto")
 GOENV.pop("GOSUMDB", None)  # GOSUMDB=off breaks the cached-toolchain switch
 
@@ -113,7 +115,7 @@ def coq_assumptions(properties_v, timeout=600):
     src = strip_comments(open(os.path.join(COQ, properties_v)).read())
     names = re.findall(r"Print\s+Assumptions\s+([\w.']+)\s*\.", src)
     theorems = re.findall(r"^\s*(?:Theorem|Lemma|Corollary)\s+([\w']+)", src, re.M)
-    tmp = os.path.join(BUILD, "props", hashlib.sha1(properties_v.encode()).hexdigest()[:10])
+    tmp = os.path.join(RUNROOT, "props", hashlib.sha1(properties_v.encode()).hexdigest()[:10])
     os.makedirs(tmp, exist_ok=True)
     rc, out = sh(["timeout", str(timeout), "coqc", "-Q", os.path.join(COQ, "theories"), "VF",
                   "-o", os.path.join(tmp, os.path.basename(properties_v) + "o"), os.path.join(COQ, properties_v)], cwd=tmp, timeout=timeout + 30)
@@ -251,7 +253,7 @@ def evaluate_dir(outdir):
 
 def replay_histories(binpath, histories, tag):
     """Run given histories on the implementation + Coq; returns verdict list."""
-    d = os.path.join(BUILD, "run", tag)
+    d = os.path.join(RUNROOT, tag)
     shutil.rmtree(d, ignore_errors=True)
     os.makedirs(d)
     inp = os.path.join(d, "in.json")
@@ -443,7 +445,7 @@ def main(argv):
             gen = ["gen", "-seed", str(seed), "-cases", str(n), "-shards", str(shards)] + (["-thorough"] if thorough else [])
             runs.append(("gen", gen, None))
         for (rname, rargs, hs) in runs:
-            outdir = os.path.join(BUILD, "run", "%s_%s_%s" % (pid, h["cmd"], rname))
+            outdir = os.path.join(RUNROOT, "%s_%s_%s" % (pid, h["cmd"], rname))
             if hs is not None:
                 os.makedirs(os.path.dirname(outdir), exist_ok=True)
                 inp = outdir + "_in.json"
@@ -630,6 +632,7 @@ def main(argv):
     evdir = os.path.join(VERIF, "evidence") if os.path.realpath(REPO) == "/repo" else os.path.join(BUILD, "evidence_scratch")
     os.makedirs(evdir, exist_ok=True)
     json.dump(ev, open(os.path.join(evdir, pid + ".json"), "w"), indent=1)
+    shutil.rmtree(RUNROOT, ignore_errors=True)
     for l in lines:
         print(l)
     print("%s tier=%s obligations=%d/%d cases=%d events=%d problems=%d wall=%.1fs -> exit %d" % (
